@@ -17,6 +17,7 @@ import (
 	"strings"
 	"time"
 
+	"github.com/mattn/anko/ast"
 	"github.com/mattn/anko/env"
 
 	"verifharness/internal/ank"
@@ -111,17 +112,34 @@ var c01SoupTokens = []string{"func", "return", "var", "throw", "if", "else", "fo
 	"go", "defer", "chan", "struct", "make", "type", "len", "delete", "close", "map", "import", "break", "continue",
 	"==", "!=", ">=", "<=", "||", "&&", "??", "+=", "-=", "*=", "/=", "&=", "|=", "++", "--", "<<", ">>", "<-", "= <-", "...", "+", "-", "*", "/", "%", "&", "|", "^", "!", "<", ">",
 	"=", "?", ":", ";", ",", ".", "(", ")", "[", "]", "{", "}", "\n", "a", "b", "x", "y", "vList", "vMap", "vInt", "vStr", "vChan", "vFunc", "vPtr", "vStruct", "vMod", "gId", "gAdd", "int64", "string", "interface",
-	"0", "1", "2", "1.5", "0x10", "0b1", "9223372036854775807", "\"s\"", "'c'", "`r`", "\"", "'", "`", "#", "//", "/*", "*/", "\\", "é", "\x00", "1e", "0x", "1..2", "@", "$"}
+	"0", "1", "2", "1.5", "0x10", "0b1", "9223372036854775807", "\"s\"", "'c'", "`r`", "\"", "'", "`", "#", "//", "/*", "*/", "\\", "é", "\x00", "1e", "0x", "1..2", "@", "$",
+	"1e-3000000000", "\"1e-3000000000\"", "\"12.5E-99999999999999999999\"", "1e400", "0.5", "e", "[]", "[][]", "...)", "(...)", "TFunc", "TStruct", "gStr", "gSl", "error"}
 
 type c01Env struct {
 	e *env.Env
 }
 
-func c01NewEnv() *env.Env {
-	e := ank.NewCoreEnv()
-	if o := ank.Exec(e, c01Prelude); o.Err != nil || o.Panicked {
+// c01Stringer is a non-empty interface other than error
+type c01Stringer interface{ String() string }
+
+var c01PreludeStmt, c01TypePreludeStmt ast.Stmt
+
+func c01RunPrelude(e *env.Env, stmt *ast.Stmt, src string) {
+	if *stmt == nil {
+		s, err, _ := ank.Parse(src)
+		if err != nil {
+			panic(fmt.Sprintf("C01 prelude does not parse: %v", err))
+		}
+		*stmt = s
+	}
+	if o := ank.RunCtx(context.Background(), e, *stmt); o.Err != nil || o.Panicked {
 		panic(fmt.Sprintf("C01 prelude failed: %v %v", o.Err, o.PanicVal))
 	}
+}
+
+func c01NewEnv() *env.Env {
+	e := ank.NewCoreEnv()
+	c01RunPrelude(e, &c01PreludeStmt, c01Prelude)
 	e.Define("gId", func(a interface{}) interface{} { return a })
 	e.Define("gAdd", func(a, b int64) int64 { return a + b })
 	e.Define("gVar", func(a interface{}, rest ...interface{}) int { return len(rest) })
@@ -140,16 +158,41 @@ func c01NewEnv() *env.Env {
 		}
 		return l
 	})
+	// Go functions whose result type is an interface with methods, returning nil or a number
+	e.Define("gNilErr", func() error { return nil })
+	e.Define("gErrOnly", func(a interface{}) error {
+		if a == nil {
+			return nil
+		}
+		return errors.New("host failure")
+	})
+	e.Define("gNilStr", func() c01Stringer { return nil })
+	e.Define("gStr", func() c01Stringer { return 90 * time.Nanosecond })
+	// Go functions over typed slices, maps, pointers, channels, functions, and their nil results
+	e.Define("gSl", func(a []int64) int { return len(a) })
+	e.Define("gMp", func(m map[string]int64) int { return len(m) })
+	e.Define("gPt", func(p *int64) *int64 { return p })
+	e.Define("gCh", func(ch chan int64) chan int64 { return ch })
+	e.Define("gVarT", func(a ...int64) int { return len(a) })
+	e.Define("gNilMap", func() map[string]int64 { return nil })
+	e.Define("gNilSl", func() []int64 { return nil })
+	e.Define("gNilPtr", func() *int64 { return nil })
+	e.Define("gNilFn", func() func(int64) int64 { return nil })
+	e.Define("gNilCh", func() chan int64 { return nil })
+	e.Define("gFnRet", func() func(int64) int64 { return func(a int64) int64 { return a } })
+	e.Define("gCb", func(f func(a []int64, m map[string]int64) []string) []string { return f([]int64{1}, nil) })
+	e.Define("gCbV", func(f func(a ...int64) int64) int64 { return f(1, 2) })
+	c01RunPrelude(e, &c01TypePreludeStmt, c01TypePrelude)
 	return e
 }
 
+// c01Fill fills the holes of a template (see c01Hole); generated operands can
+// have holes of their own, which the next pass fills (from the table beyond depth 2)
 func c01Fill(r *rand.Rand, tpl string) string {
-	for _, h := range []string{"$A", "$B", "$C"} {
-		for strings.Contains(tpl, h) {
-			tpl = strings.Replace(tpl, h, c01Operands[r.Intn(len(c01Operands))], 1)
-		}
+	for depth := 0; depth < 5 && strings.Contains(tpl, "$"); depth++ {
+		tpl = c01HoleRe.ReplaceAllStringFunc(tpl, func(h string) string { return c01Hole(r, h, depth) })
 	}
-	return tpl
+	return c01HoleRe.ReplaceAllString(tpl, "nil")
 }
 
 func c01Soup(r *rand.Rand) string {
@@ -195,7 +238,7 @@ func c01Mutate(r *rand.Rand, src string) string {
 			return src
 		}
 		w := words[r.Intn(len(words))]
-		return strings.Replace(src, w, c01Operands[r.Intn(len(c01Operands))], 1)
+		return strings.Replace(src, w, c01Fill(r, "$A"), 1)
 	case 5: // splice with a template
 		i := r.Intn(len(bs) + 1)
 		return string(bs[:i]) + "\n" + c01Fill(r, c01Templates[r.Intn(len(c01Templates))]) + "\n" + string(bs[i:])
@@ -232,12 +275,16 @@ func init() {
 			return fw.Plan{
 				Level:            "exploration",
 				CrashIsViolation: true,
-				Rule:             "each case runs 50 scripts through vm.ExecuteContext (debug=false) in an environment holding one value of every constructible kind plus Go functions over such values (identity, typed, variadic, multi-result, error-returning, panicking with error/string/arbitrary value, callbacks): 15% token soup from the lexer's alphabet, 45% grammar-wild templates (every production with operands chosen ignoring types, degenerate forms), 30% mutations of the repository's own scripts, 10% mutated generated programs; case 0 replays every input that crashed the pinned tree. Monitor: recover() around the call (a Go panic reaching the caller) and the parent's classifier over a worker death (panic in a script goroutine, fatal error). Non-trivial = the script parsed; distinct = distinct source text.",
+				Rule:             "each case runs 70 scripts through vm.ExecuteContext (debug=false) in an environment holding one value of every constructible kind, types defined with make(type ...) (of numbers, strings, lists, maps, functions, structs, channels, pointers, durations, error), plus Go functions over such values (identity, typed scalars/slices/maps/pointers/channels/functions, variadic, multi-result, error-returning incl. a nil error or nil non-empty interface as the single result, nil map/slice/pointer/function/channel results, panicking with error/string/arbitrary value, callbacks): 15% token soup from the lexer's alphabet, 45% grammar-wild templates (every production with operands chosen ignoring types, degenerate forms; 14% of the operands are generated: function literals of every parameter-list shape incl. variadic without a named parameter and duplicate names, numerals as source literals and as strings with fractions, exponents of every magnitude up to beyond the int32/int64 range and digit strings of up to 400 digits, typed literals/make/new over random type expressions nested three deep - slice/map/chan/pointer/struct/defined/dotted/undefined names, including map keys reflect cannot hash and struct fields that are lower-case or duplicated; dedicated templates put function literals, numerals and types in every position they can be written, compare/convert/index with numerals, use the zero value of the type of any value, and call Go methods through member syntax), 30% mutations of the repository's own scripts, 10% mutated generated programs; case 0 replays every input that crashed the pinned tree plus one representative of each generated class. Monitor: recover() around the call (a Go panic reaching the caller), the parent's classifier over a worker death (panic in a script goroutine, fatal error), and for every returned value a goroutine that keeps it - and up to 7 nil interface values reachable in it - in local variables while its stack is moved, so that a corrupted value ends the worker with the runtime's 'invalid pointer found on stack' while its input is in flight. Non-trivial = the script parsed; distinct = distinct source text.",
 				Assumptions: []string{"stack/memory exhaustion and concurrent map access between script goroutines are classified from the runtime's fatal-error text and excluded, as the statement says",
 					"allocation sizes between 10^4 and 2^48 and range() over huge spans are never generated (they would exhaust memory, which is outside the guarantee)",
-					"the packages tables are not linked into this worker: import() cannot reach os.Exit/exec/sockets"},
+					"the packages tables are not linked into this worker: import() cannot reach os.Exit/exec/sockets",
+					"numerals that the VM would take as a size or repeat count (integer numerals also inside strings, float literals) are generated below 10^4 or beyond the int64 range only; in scripts that mention range() exponents and long digit runs are stripped",
+					"environment class: Go arrays, Go functions with array parameters and Go structs with embedded pointers are not bound - a script cannot construct such values (no array type or embedded field can be written), so they are outside the stated class of environments",
+					"pending repairs of the pinned tree (c01PendingFix_* constants, /tmp/strengthen/C01-genuine.md): nil module pointers (zero value of a type defined from a module), and nil values of a non-empty interface type sent into channels / stored into maps (such values are confined to templates that do neither) are kept out of the generated domain until /repo is repaired",
+					"the moved-stack observation needs the runtime to start the observing goroutine with a stack smaller than 192KB (the default); otherwise it learns nothing and stays silent"},
 				Phases: []fw.Phase{{Name: "fuzz", Cases: n, Chunk: 25, TimeoutS: 600, MemMB: 6144},
-					{Name: "goroutines", Cases: n / 20, Chunk: 5, TimeoutS: 600, MemMB: 6144}},
+					{Name: "goroutines", Cases: n / 10, Chunk: 5, TimeoutS: 600, MemMB: 6144}},
 			}
 		},
 		Init: func(w *wk.Worker) {
@@ -270,7 +317,7 @@ func init() {
 			if c.Index == 0 {
 				scripts = c01Fixed
 			} else {
-				for i := 0; i < 50; i++ {
+				for i := 0; i < 70; i++ {
 					switch r := c.Rng.Intn(100); {
 					case r < 15:
 						scripts = append(scripts, c01Soup(c.Rng))
@@ -315,6 +362,7 @@ func c01Contain(src string) string {
 		for _, big := range []string{"vBig", "vMax", "9223372036854775807", "4611686018427387904"} {
 			src = strings.ReplaceAll(src, big, "vInt")
 		}
+		src = c01ContainNumerals(src)
 	}
 	return src
 }
@@ -366,6 +414,7 @@ func c01RunOne(c *wk.Case, src string, watchdog time.Duration) {
 	default:
 		c.Tag("outcome:value")
 		_ = ank.Render(o.Val) // the bounded printer must cope with whatever came back
+		c01HoldResult(o.Val)  // and the host can keep it while its stack moves
 	}
 	if c.WantSample() && perr == nil {
 		c.Sample(map[string]string{"src": src, "err": ank.ErrText(o.Err)})
